@@ -6,6 +6,7 @@
    computed by the specification function [attributed] on the trace. *)
 open Model
 open X_fops
+let rec nat_of_int (n : int) : nat = if n <= 0 then O else S (nat_of_int (n - 1))
 
 let rec all_indices (nx : int list) : int list list =
   match nx with
